@@ -24,6 +24,7 @@ import (
 	"os"
 	"path/filepath"
 	"sync"
+	"syscall"
 	"time"
 
 	"github.com/gin-gonic/gin"
@@ -77,6 +78,7 @@ type Env struct {
 
 	nmu    sync.Mutex
 	notifs []Notif
+	sinkStatus int
 }
 
 type EnvOpts struct {
@@ -103,13 +105,38 @@ func GenCert(dir string) (string, string) {
 	return p, k
 }
 
+// FreePort reserves a TCP port for a server the repository's code will open itself (it takes a port number,
+// not a listener).  Asking the kernel for port 0 and closing the listener is racy when a dozen harness processes
+// run side by side: two of them can be handed the same number, one bind fails silently and that process would
+// talk to the OTHER process's rating / account server.  So ports come from below the ephemeral range and each is
+// protected by an advisory file lock held until this process exits.
+var portLocks []*os.File
+
 func FreePort() int {
-	l, err := net.Listen("tcp", "127.0.0.1:0")
-	if err != nil {
-		panic(err)
+	dir := "/var/tmp/vf.ports"
+	_ = os.MkdirAll(dir, 0o777)
+	const lo, n = 10000, 20000
+	start := (os.Getpid()*7919 + len(portLocks)*131) % n
+	for i := 0; i < n; i++ {
+		p := lo + (start+i)%n
+		f, err := os.OpenFile(filepath.Join(dir, fmt.Sprintf("%d.lock", p)), os.O_CREATE|os.O_RDWR, 0o666)
+		if err != nil {
+			continue
+		}
+		if syscall.Flock(int(f.Fd()), syscall.LOCK_EX|syscall.LOCK_NB) != nil {
+			_ = f.Close()
+			continue
+		}
+		l, err := net.Listen("tcp", fmt.Sprintf("127.0.0.1:%d", p))
+		if err != nil {
+			_ = f.Close()
+			continue
+		}
+		_ = l.Close()
+		portLocks = append(portLocks, f)
+		return p
 	}
-	defer l.Close()
-	return l.Addr().(*net.TCPAddr).Port
+	panic("no free port")
 }
 
 func WaitPort(port int, d time.Duration) bool {
@@ -213,8 +240,12 @@ func StartEnv(o EnvOpts) (*Env, error) {
 		}
 		e.nmu.Lock()
 		e.notifs = append(e.notifs, n)
+		st := e.sinkStatus
 		e.nmu.Unlock()
-		w.WriteHeader(http.StatusNoContent)
+		if st == 0 {
+			st = http.StatusNoContent
+		}
+		w.WriteHeader(st)
 	})
 	ln, err := net.Listen("tcp", "127.0.0.1:0")
 	if err != nil {
@@ -230,6 +261,13 @@ func (e *Env) Close() {
 	if e.Dir != "" {
 		_ = os.RemoveAll(e.Dir)
 	}
+}
+
+// SetSinkStatus chooses what the consumer's notification endpoint answers from now on (0 = 204 No Content).
+func (e *Env) SetSinkStatus(st int) {
+	e.nmu.Lock()
+	e.sinkStatus = st
+	e.nmu.Unlock()
 }
 
 // TakeNotifs returns and clears the notifications received so far.
